@@ -130,7 +130,7 @@ def rule_component_extraction(ctx):
     ok_src = bool(it) and all(any(o.kind == "param" and o.data == 1 for o in origins(ex, s.node["args"][0])) for s in it)
     r.check(ok_src, ex.id + "|attacks", "attack-source", "iterates all attacks of the source framework (self.init_af.iter_attacks())", "the extraction does not range over all attacks of the source framework", ex.loc())
     ins = []
-    for x in prog.closures_of(ex):
+    for x in prog.with_closures(ex):
         for s in x.calls():
             if callee_matches(callee_of(s), r"AAFramework::new_attack_by_ids$"):
                 ins.append((x, s))
@@ -148,6 +148,9 @@ def rule_component_extraction(ctx):
             srcs = {callee_decl(callee_of(cc)).rsplit("::", 1)[-1] for cc in calls if callee_matches(callee_of(cc), r"aa_framework::Attack::(attacker|attacked)$")}
             if c.is_discr and not c.negated and c.values == ["1"] and srcs == {"attacker"}:
                 continue
+            # the loop control of `for att in ..iter_attacks()`: the Some arm of Iterator::next
+            if c.is_discr and not c.place["p"] and any(o.kind == "call" and callee_decl(o.data) == "core::iter::traits::iterator::Iterator::next" for o in origins(x, c.place, transparent=())):
+                continue
             extra.append((c, sorted(srcs)))
         r.check(not extra, ex.id + "|filter", "extra-filter:%s" % [e[1] for e in extra], "the only filter is membership of the attacker", "attacks of the component are filtered by something else than membership of the attacker (some attacks are dropped)", s.loc())
         # both ids come from the same mapping table
@@ -159,35 +162,54 @@ def rule_component_extraction(ctx):
                     for o in origins(x, c.node["args"][0], transparent=("core::ops::deref::Deref::deref",)):
                         if o.kind == "upvar":
                             out.add(x.upvar_name(o.data))
+                        elif o.kind in ("call", "agg", "param"):
+                            out.add("local:%s" % repr(o.key()))
             return out
         r.check(table(s.node["args"][1]) == table(s.node["args"][2]) and len(table(s.node["args"][1])) == 1, ex.id + "|mapping", "mapping-tables", "both ids are read from the same id-mapping table", loc=s.loc())
     # mapping = enumerate index over the component vector; labels from the same vector
     enum_src = set()
     ENUM_T = ("core::iter::traits::iterator::Iterator::enumerate", "core::slice::iter", "core::ops::deref::Deref::deref", "core::iter::traits::collect::IntoIterator::into_iter")
-    # loop form in the function itself: `for (i, a) in component.iter().enumerate() { mapping[a.id()] = Some(i) }`
-    for st in ex.sites():
-        nd = st.node
-        inner = None
-        if st.si is not None and nd["k"] == "assign" and nd["dst"]["p"] == ["*"] and "Option<usize>" in ex.local_ty(nd["dst"]["l"]):
-            if nd["rv"]["k"] == "aggregate" and nd["rv"]["agg"].get("variant") == "Some":
-                inner = nd["rv"]["ops"][0]
-            elif nd["rv"]["k"] == "use":
-                for o in origins(ex, nd["rv"]["ops"][0], transparent=()):
-                    if o.kind == "agg" and o.data.get("variant") == "Some":
-                        inner = o.site.node["rv"]["ops"][0]
-        if inner is None:
-            continue
-        nexts = [o for o in origins(ex, inner) if o.kind == "call" and callee_decl(o.data) == "core::iter::traits::iterator::Iterator::next" and o.fields and str(o.fields[-1]) == "0"]
-        r.check(bool(nexts), ex.id + "|new-id", "new-id-source", "new id = enumeration index", "the new id of an argument is not its position in the component vector", st.loc())
-        for o in nexts:
-            its = origins(ex, o.site.node["args"][0], transparent=ENUM_T)
-            if any(callee_decl(oo.data) == "core::iter::traits::iterator::Iterator::enumerate" for oo in origins(ex, o.site.node["args"][0], transparent=()) if oo.kind == "call") or True:
-                # the enumerate adaptor must be in the chain
-                chain_has_enum = any(callee_decl(callee_of(cs)) == "core::iter::traits::iterator::Iterator::enumerate" for cs in data_deps(ex, o.site.node["args"][0])[1])
+    # loop form, in the function itself or in a helper that builds the table from (a slice of) the component vector:
+    # `for (i, a) in component.iter().enumerate() { mapping[a.id()] = Some(i) }`
+    def loop_form(y):
+        """parameters of y whose enumeration index is stored as the new id; None when no store is found"""
+        found = None
+        for st in y.sites():
+            nd = st.node
+            inner = None
+            if st.si is not None and nd["k"] == "assign" and nd["dst"]["p"] == ["*"] and "Option<usize>" in y.local_ty(nd["dst"]["l"]):
+                if nd["rv"]["k"] == "aggregate" and nd["rv"]["agg"].get("variant") == "Some":
+                    inner = nd["rv"]["ops"][0]
+                elif nd["rv"]["k"] == "use":
+                    for o in origins(y, nd["rv"]["ops"][0], transparent=()):
+                        if o.kind == "agg" and o.data.get("variant") == "Some":
+                            inner = o.site.node["rv"]["ops"][0]
+            if inner is None:
+                continue
+            found = found or set()
+            nexts = [o for o in origins(y, inner) if o.kind == "call" and callee_decl(o.data) == "core::iter::traits::iterator::Iterator::next" and o.fields and str(o.fields[-1]) == "0"]
+            r.check(bool(nexts), ex.id + "|new-id", "new-id-source", "new id = enumeration index", "the new id of an argument is not its position in the component vector", st.loc())
+            for o in nexts:
+                its = origins(y, o.site.node["args"][0], transparent=ENUM_T)
+                chain_has_enum = any(callee_decl(callee_of(cs)) == "core::iter::traits::iterator::Iterator::enumerate" for cs in data_deps(y, o.site.node["args"][0])[1])
                 if chain_has_enum:
                     for oo in its:
                         if oo.kind == "param":
-                            enum_src.add(oo.data)
+                            found.add(oo.data)
+        return found
+
+    got = loop_form(ex)
+    if got:
+        enum_src |= got
+    for cs, t in prog.callees(ex, include_closures=False, virtual_dispatch=False):
+        if t.kind == "closure" or t is ex or "Option<usize>" not in t.ret_ty:
+            continue
+        got = loop_form(t)
+        for k in got or ():
+            if k - 1 < len(cs.node["args"]):
+                for o in origins(ex, cs.node["args"][k - 1], transparent=("core::ops::deref::Deref::deref", "alloc::vec::Vec::as_slice")):
+                    if o.kind == "param":
+                        enum_src.add(o.data)
     for x in prog.closures_of(ex):
         for st in x.sites():
             nd = st.node
